@@ -198,8 +198,12 @@ class VTty:
     """
 
     def __init__(self, cols=80, rows=24, xpx=0, ypx=0, responder=None, attrs=None,
-                 chooser=None, allow_silence=True):
+                 chooser=None, allow_silence=True, eager=False):
         self.cols, self.rows, self.xpx, self.ypx = cols, rows, xpx, ypx
+        # eager: a terminal may answer at once - at tcdrain() (the query has certainly reached it) the
+        # first j pending replies may already be queued before the application's next call; one more
+        # point of the reply-schedule tree (choice 0 = nothing yet).  Off by default.
+        self.eager = eager
         self.responder = responder or Responder()
         self.attrs = attrs if attrs is not None else default_attrs()
         self.inq = bytearray()
@@ -322,6 +326,10 @@ class VTty:
 
     def tcdrain(self, fd):
         n = self._enter("tcdrain")
+        if self.eager and self.chooser is not None and self.pending:
+            j = self.chooser.choose(len(self.pending) + 1, "eager")
+            if j:
+                self._deliver(j, 0.0)
         self._leave(n)
 
     def write(self, fd, data):
